@@ -325,13 +325,16 @@ def rows_loaded(ctx, rule="ROWS-ALL"):
         if not (cs and ex and rr):
             ctx.anchor_missing(rule, "%s::exec: create_stream / exists / read_rows calls" % nm)
             continue
-        skip_exists = cs & cfg.reachable(f, 0, avoid=ex)
+        # blocks on the Break edge of a `?`: they end in an error return (possibly through the return of an inlined helper and the caller's own `?`),
+        # never in the rewrite of the stream
+        brk = {bl["id"] for bl in f.blocks if not bl["cleanup"] and any(re.fullmatch(r"discr\(call@\d+:.*Try>?::branch\)", e) and tr == ("==", 1) for (e, tr, g) in S.bool_facts_at(bl["id"]))}
+        skip_exists = cs & cfg.reachable(f, 0, avoid=ex | brk)
         T = {bl["id"] for bl in f.blocks if not bl["cleanup"] and any(tr is True and re.search(r"CompoundFile::<F>::(exists|is_stream)\(", e) for (e, tr, g) in S.bool_facts_at(bl["id"]))}
         preds = f.preds()
         heads = {b for b in T if any(p not in T for p in preds[b])}
         skip_read = set()
         for h in heads:
-            skip_read |= cs & cfg.reachable(f, h, avoid=rr)
+            skip_read |= cs & cfg.reachable(f, h, avoid=rr | brk)
         ctx.check(not skip_exists and not skip_read and bool(heads), rule, "%s::exec rewrites the stream only with the stored rows loaded" % nm, "%d exists, %d read_rows, %d create_stream" % (len(ex), len(rr), len(cs)),
                   "%s::exec can reach create_stream %s: the stored rows are not loaded on that path, so their strings are never released (deleted rows leak pool capacity) and "
                   "they are dropped from / not checked against the rewritten stream" % (nm, "without asking whether the table's stream exists" if skip_exists else "although the stream exists and was not read"),
@@ -364,12 +367,17 @@ def pairs(ctx):
                 if s["lhs"]["l"] == 0 and s["rhs"]["rv"] == "use" and s["rhs"]["ops"][0].get("k") == "const":
                     res[s["rhs"]["ops"][0]["int"]] = bl["id"]
         hdr = [h for h, bl in loops.items() if rm[0] in bl]
-        nl = not_result_local(c)
-        if nl is not None and not res:
-            # `retain(|row| { if should_delete { release cells } !should_delete })`: the release loop runs exactly under the flag whose negation is returned
-            ok = in_loop and any(e in ("_%d" % nl, S.local(nl)) and tr is True for (e, tr, g) in S.bool_facts_at(rm[0]))
+        # case analysis on (condition present?, true?): the cells are released in exactly the cases in which the row is dropped
+        from .relational import filter_scenarios
+        sc = filter_scenarios(prog, c)
+        if sc is not None:
+            ok = in_loop and all(v[0] in (0, 1) and v[1] == (v[0] == 0) for v in sc.values())
         else:
-            ok = in_loop and 0 in res and 1 in res and hdr and hdr[0] in dom[res[0]] and rm[0] not in cfg.backward_reachable(c, {res[1]})
+            nl = not_result_local(c)
+            if nl is not None and not res:
+                ok = in_loop and any(e in ("_%d" % nl, S.local(nl)) and tr is True for (e, tr, g) in S.bool_facts_at(rm[0]))
+            else:
+                ok = in_loop and 0 in res and 1 in res and hdr and hdr[0] in dom[res[0]] and rm[0] not in cfg.backward_reachable(c, {res[1]})
         # the loop iterates the closure's own row argument
         ok = ok and any("p2" in x for x in it)
     ctx.check(ok, R, "Delete::exec releases the strings of deleted rows", "", "Delete::exec's retain closure does not release (ValueRef::remove over all cells) exactly the rows it drops",
